@@ -988,7 +988,21 @@ mod pipeline {
                 if idx != cnt - 1 {
                     runner = runner.stdout(Redirection::Pipe);
                 }
-                ret.push(runner.popen()?);
+                match runner.popen() {
+                    Ok(p) => ret.push(p),
+                    Err(e) => {
+                        // The commands started so far are waited for when
+                        // `ret` is dropped.  Release the pipe ends we still
+                        // hold first, otherwise a first command reading a
+                        // piped stdin never sees end-of-file and the wait
+                        // never returns.
+                        for p in &mut ret {
+                            p.stdin.take();
+                            p.stdout.take();
+                        }
+                        return Err(e);
+                    }
+                }
             }
             Ok(ret)
         }
